@@ -24,6 +24,29 @@ ns_ticks(void) {
   return t;
 }
 
+/* ---- entropy: the (D)TLS library seeds its generator through getrandom() (again after every fork); served from a fixed
+ * sequence so that every execution of a scenario sees the same handshake randoms, cookies and session ids ---- */
+static uint64_t g_entropy_state = 0x9E3779B97F4A7C15ull;
+static void
+entropy_fill(void *buf, size_t len) {
+  uint8_t *p = buf;
+  for (size_t i = 0; i < len; i++) {
+    g_entropy_state = g_entropy_state * 6364136223846793005ull + 1442695040888963407ull;
+    p[i] = (uint8_t)(g_entropy_state >> 56);
+  }
+}
+ssize_t
+getrandom(void *buf, size_t len, unsigned flags) {
+  (void)flags;
+  entropy_fill(buf, len);
+  return (ssize_t)len;
+}
+int
+getentropy(void *buf, size_t len) {
+  entropy_fill(buf, len);
+  return 0;
+}
+
 int
 clock_gettime(clockid_t clk, struct timespec *ts) {
   if (!g_clock_virtual)
@@ -1091,6 +1114,7 @@ ns_log_quiet(void) {
 
 void
 ns_init(void) {
+  g_entropy_state = 0x9E3779B97F4A7C15ull;
   g_clock_virtual = 1;
   g_vnow_ms = 0;
   memset(g_socks, 0, sizeof g_socks);
